@@ -706,9 +706,29 @@ def rw_renumber(p: Proto) -> bool:
     return ch
 
 
+def rw_rename_shadow(p: Proto) -> bool:
+    """rename a nested enum/message to the name of a file-level definition that its host does
+    not reference (legal shadowing: the nested one must keep being used inside the host)"""
+    tops = {d.name: d for d in p.defs if isinstance(d, (Enum, Message, Alias))}
+    for host in [d for d in p.defs if isinstance(d, Message)]:
+        used = {id(x) for x in _deps(host)}
+        for n in host.nested:
+            for tn, td in tops.items():
+                if td is host or id(td) in used or tn == n.name or any(getattr(x, "name", None) == tn for x in host.nested):
+                    continue
+                if isinstance(td, type(n)) or isinstance(n, Enum):
+                    n.name = tn
+                    for h, a in _walk_types(p):
+                        t = getattr(h, a)
+                        if isinstance(t, TRef) and t.target is n:
+                            t.text_ = None
+                    return True
+    return False
+
+
 REWRITES = {
     "rename": rw_rename, "reorder_fields": rw_reorder_fields, "reorder_defs": rw_reorder_defs, "alias_intro": rw_alias_intro, "alias_inline": rw_alias_inline,
-    "nest": rw_nest, "hoist": rw_hoist, "to_import": rw_to_import, "const_expr": rw_const_expr, "renumber": rw_renumber, "style": None,
+    "nest": rw_nest, "hoist": rw_hoist, "to_import": rw_to_import, "const_expr": rw_const_expr, "renumber": rw_renumber, "style": None, "rename_shadow": rw_rename_shadow,
 }
 STYLE_B = Style(semi=True, indent="  ", blank_between=2, comments=True, trailing_ws=True)
 
@@ -716,6 +736,14 @@ STYLE_B = Style(semi=True, indent="  ", blank_between=2, comments=True, trailing
 def rw_bases() -> List[Case]:
     keep = ("nest0", "nest5", "nested_decl", "arr_msg", "arr_nd", "arr_bytes", "ext3", "ext7", "extalias", "perm1", "perm9", "empty", "wide3", "sarr9", "sarr24", "drone", "enum3", "enum9", "batch16_5", "extarr4")
     bases = [c for c in f_shape_core() if c.name in keep]
+    # bases with a file-level and a nested definition of different widths (for rename_shadow)
+    kind = _e("Kind", 3, [0, 1, 5])
+    mode = _e("Mode", 5, [0, 17, 30])
+    other = Message("Other", [Field(TRef(kind), "k", 1)])
+    sub = Message("Sub", [Field(TBase("int", 6), "v", 1)])
+    item = Message("Item", [Field(TBase("uint", 11), "w", 1), Field(TBase("bool"), "b", 2)])
+    packet = Message("Packet", [Field(TRef(mode), "mode", 1), Field(TArray(TRef(mode), 2), "modes", 2), Field(TRef(item), "item", 3), Field(TBase("uint", 4), "t", 4)], nested=[mode, item])
+    bases.append(case_of("shadowable", Proto("shadowable", [kind, sub, other, packet]), ("shadow",)))
     return bases
 
 
